@@ -79,10 +79,13 @@ def contAux : Nat → Nat → Bool → Bytes → Nat
 
 def contExtra (s : Bytes) : Nat := contAux 0 0 false s
 
-/-- trailing `\r` (one) and then trailing spaces removed -/
+/-- optional whitespace around a field value: SP / HTAB -/
+def isOWS (c : UInt8) : Bool := c == 32 || c == 9
+
+/-- trailing `\r` (one) and then trailing blanks (SP / HTAB) removed -/
 def trimValue (r : Bytes) : Bytes :=
   let r1 := if r.getLast? = some 13 then r.dropLast else r
-  (r1.reverse.dropWhile (· == 32)).reverse
+  (r1.reverse.dropWhile isOWS).reverse
 
 inductive Scan where
   | fin (consumed : Nat)
@@ -104,7 +107,7 @@ def scanNext (disableNorm : Bool) (B : Bytes) : Scan :=
       if x < n then .invalidName else
       let key := normalizeKey disableNorm (B.take n)
       let afterColon := B.drop (n + 1)
-      let sp := (afterColon.takeWhile (· == 32)).length
+      let sp := (afterColon.takeWhile isOWS).length
       let B1 := afterColon.drop sp
       match indexByte 10 B1 with
       | none => .needMore
@@ -114,7 +117,7 @@ def scanNext (disableNorm : Bool) (B : Bytes) : Scan :=
         let region := trimValue (B1.take nEnd)
         -- multi-line value: CR/LF removed, tab at a line start → space, blanks in front and at the end dropped
         let value := if extra > 0 then
-            (((normValAux false region).dropWhile (· == 32)).reverse.dropWhile (· == 32)).reverse else region
+            (((normValAux false region).dropWhile (· == 32)).reverse.dropWhile isOWS).reverse else region
         .kv key value (B1.drop (nEnd + 1)) (n + 1 + sp + nEnd + 1)
 
 /-- `bytesconv.ParseUintBuf` with Go's 64-bit `int`: `(value, consumed)` or an error -/
